@@ -74,7 +74,10 @@ fn base_indices() -> (Value, Vec<Value>) {
                      "shifts": [
                         {"start": {"earliest": t(8, 0), "latest": t(8, 0), "location": loc(0)}, "end": {"latest": t(12, 0), "location": loc(0)},
                          "breaks": [{"time": {"earliest": 3600.0, "latest": 7200.0}, "duration": 600.0}]},
-                        {"start": {"earliest": t(13, 0), "location": loc(0)}, "end": {"latest": t(18, 0), "location": loc(0)}}
+                        // the second shift has what the first has not (a reload), and lacks what the first has (a break): rules which
+                        // look at "the shift of the relation" show when they look at another one
+                        {"start": {"earliest": t(13, 0), "location": loc(0)}, "end": {"latest": t(18, 0), "location": loc(0)},
+                         "reloads": [{"location": loc(0), "duration": 5.0}]}
                      ], "capacity": [5]},
                     {"typeId": "b", "vehicleIds": ["b_1"], "profile": {"matrix": "car"}, "costs": {"fixed": 20.0, "distance": 2.0, "time": 0.0},
                      "shifts": [{"start": {"earliest": t(8, 0), "location": loc(0)},
